@@ -119,6 +119,14 @@ CLAIMED["C01"] = (
     "contract of str/format/float; float_to_str is proved separately for every float and precision 1..12.",
     "DOM passthrough instead of lxml/expat; repr/float contract; all real leaves of an obligation in one magnitude regime "
     "(normal or tiny); precision in {1,4,12} quick / 1..12 thorough; known finding: traffic-sign 'virtual' flag", "2/C01")
+CLAIMED["C03"] = (
+    "The shipped XSD is parsed at run time by a small schema interpreter; the trees the real XML node builders produce for 23 "
+    "schema-expressible skeleton scenarios with symbolic leaves are validated against it: content models and key/keyref "
+    "concretely per path, and for every numeric / boolean leaf z3 decides membership in the lexical and value space of its XSD "
+    "type for all values of the magnitude regime (normal, and tiny where exponent notation would appear); the library's own "
+    "reader must accept the tree. Concrete replays validate the real bytes with lxml.",
+    "DOM passthrough; number-formatting contract for str/format/format_float_positional; decimal precision in {1,4,12}; "
+    "xsd-lite covers the constructs the shipped schema uses", "2/C03")
 NOT_YET = {}
 
 props = [json.loads(l) for l in open(os.path.join(ROOT, "properties.jsonl"))]
